@@ -185,29 +185,43 @@ def _r142(ctx: Ctx) -> None:
 
 
 class _H(Hooks):
-    def __init__(self, n_inputs):
+    def __init__(self, n_inputs, fs=None):
         self.n_inputs = n_inputs
         self.tasks = []
+        # files of the shared data directory (the nodes of one run see the same one)
+        self.fs = fs if fs is not None else set()
+        self.fs |= {f'D/inputs/in{i}.json' for i in range(n_inputs)}
 
     def call(self, it, func, args, kwargs, node, env):
         if isinstance(func, Ext):
             n = func.name
             if n == 'os.path.join':
                 return '/'.join(str(a) for a in args)
-            if n in ('os.makedirs', 'builtins.print', 'os.remove'):
+            if n in ('os.makedirs', 'builtins.print'):
+                return None
+            if n in ('os.remove', 'os.unlink'):
+                if not isinstance(args[0], str):
+                    raise AnalysisError('R14.3', site_of(env.module, node), f'os.remove of an untracked path {args[0]!r}')
+                self.fs.discard(args[0])
                 return None
             if n == 'multiprocessing.cpu_count':
                 return 1024
             if n == 'glob.glob':
-                return [f'D/inputs/in{i}.json' for i in range(self.n_inputs)]
+                import fnmatch
+                if not isinstance(args[0], str):
+                    raise AnalysisError('R14.3', site_of(env.module, node), f'glob of an untracked pattern {args[0]!r}')
+                return sorted(fnmatch.filter(self.fs, args[0]))
             if n == 'os.path.basename':
                 return str(args[0]).split('/')[-1]
             if n == 'os.path.abspath':
                 return args[0]
             if n == 'os.path.exists':
-                return False
+                return args[0] in self.fs
             if n == 'multiprocessing.Process':
                 self.tasks.append((kwargs.get('args'), kwargs.get('kwargs')))
+                a = kwargs.get('args')
+                if isinstance(a, tuple) and len(a) >= 2 and isinstance(a[1], str):
+                    self.fs.add(a[1])            # the task writes its result file
                 return Ext('proc')
             if n.startswith('proc'):
                 return None
@@ -275,6 +289,43 @@ def _r143(ctx: Ctx) -> None:
            facts={'configurations': total, 'failing': bad,
                   'bounds': {'inputs': max_in, 'nodes': max_n, 'cores': max_c, 'trials': max_t}})
     ctx.extra['bounded_configurations'] = total
+    # --delete-existing on a directory that already holds results, the nodes starting one after the other (in either
+    # order): when all have started, the result file of every task launched in THIS run is still there
+    total2 = bad2 = 0
+    first2 = None
+    for n_inputs in range(1, 3):
+        for N in range(1, 4):
+            for C in range(1, 4):
+                if N * C < n_inputs:
+                    continue
+                for order in (list(range(1, N + 1)), list(range(N, 0, -1))):
+                    total2 += 1
+                    width = len(str(N * C))
+                    fs = {f'D/results/results_{str(i + 1).zfill(width)}.json{sfx}' for i in range(N * C + 2) for sfx in ('', '.gz')}
+                    launched = []
+                    why = None
+                    for job in order:
+                        h = _H(n_inputs, fs)
+                        it = Interp(m, h)
+                        outs = guard('R14.3', mi, fn)(lambda: it.explore(lambda: it.call_closure(
+                            Closure(fn, mi), [], dict(data_dir='D', trials=N * C + 1, n_nodes=N, job_idx=job, n_cores=C,
+                                                      delete_existing=True), fn)))
+                        if len(outs) != 1 or outs[0].kind != 'return':
+                            why = f'job {job}: {outs!r}'
+                            break
+                        launched += [(job, a[1]) for a, _ in h.tasks if isinstance(a, tuple) and len(a) >= 2]
+                    if why is None:
+                        gone = [(job, f) for job, f in launched if f not in fs]
+                        if gone:
+                            why = (f'the result file {gone[0][1]} of a task started by node {gone[0][0]} is deleted by a node '
+                                   f'that starts later')
+                    if why:
+                        bad2 += 1
+                        first2 = first2 or f'{n_inputs} input(s), {N} node(s) x {C} core(s), nodes starting in the order {order}: {why}'
+    ctx.ob('R14.3', site, f'run_parallel with delete_existing on {total2} configurations (bounded), nodes starting one after '
+                          f'the other: no node deletes the result file of a task of the same run', bad2 == 0,
+           f'{bad2} of {total2} configurations fail; first: {first2}', key='run_parallel|delete-existing',
+           facts={'configurations': total2, 'failing': bad2})
 
 
 def _r142_order(ctx: Ctx) -> None:
@@ -298,7 +349,9 @@ def _r142_order(ctx: Ctx) -> None:
 def run(ctx: Ctx) -> None:
     ctx.rule('R14.1', 'a remainder added to a per-share quotient is the remainder of the same division, for one share', floor=4)
     ctx.rule('R14.2', 'task index injective in (job, core); result/progress file names depend on it', floor=4)
-    ctx.rule('R14.3', 'bounded partial evaluation of the whole split over small configurations', floor=1)
+    ctx.rule('R14.3', 'bounded partial evaluation of the whole split over small configurations', floor=2)
+    ctx.rule('R14.4', 'a task that starts from nothing ends with exactly its share of trials saved in its result file '
+                      '(a share of one trial included)', floor=1)
     ctx.trust('glob order is the same on every node of one run (shared file system listing)')
     with ctx.part():
         _r143(ctx)
@@ -308,3 +361,7 @@ def run(ctx: Ctx) -> None:
         _r142(ctx)
     with ctx.part():
         _r142_order(ctx)
+    with ctx.part():
+        # what each launched task does with its share: run_file -> BatchSimulation._run(n_runs) from nothing
+        from .c12 import _r124
+        _r124(ctx, 'R14.4', fresh=True)
